@@ -261,7 +261,11 @@ def _replay(job, phase):
             decls = args['decls']
             ok = m.solution is not None and not (isinstance(m.solution.objval, float) and math.isnan(m.solution.objval))
             if not ok:
-                finding('C09', 'C09:solve-failed:%s' % act, 'step %d: %s reported no solution for a model every part of which solves alone' % (si, act))
+                stxt = str(getattr(m.solution, 'status', '')).lower()
+                if any(w_ in stxt for w_ in ('numerical', 'maximum', 'close to')):
+                    notes.append('inconclusive')          # ECOS gave up without a certificate: not a verdict about the model
+                    break
+                finding('C09', 'C09:solve-failed:%s' % act, 'step %d: %s reported no solution (%s) for a model every part of which solves alone' % (si, act, stxt))
                 break
             tv = np.array(t.get(), dtype=float).reshape(-1)
             want_s = 0.0 if args['wrow'] else 10.0
